@@ -114,7 +114,7 @@ CHECKS["C10"] = {
          "functions": ["QSolJulData::from(&EnergyProps, &HashMap)"]},
         {"name": "c10::qsol_finite", "unwindset": UW10, "bound": "0 or 1 window, A_ref in {0,2,8}, same grids", "kani_args": NOOVF, "cbmc_args": FS2K, "stubs": FMT,
          "functions": ["QSolJulData::from(&EnergyProps, &HashMap)"]},
-        {"name": "c10::qsol_2", "unwindset": UW10, "tier": "off", "mem_gb": 40, "bound": "2 windows", "kani_args": NOOVF, "cbmc_args": FS2K, "stubs": FMT,
+        {"name": "c10::qsol_2", "unwindset": UW10, "tier": "thorough", "mem_gb": 40, "timeout_thorough": 2700, "bound": "2 windows", "kani_args": NOOVF, "cbmc_args": FS2K, "stubs": FMT,
          "functions": ["QSolJulData::from(&EnergyProps, &HashMap)"]},
     ],
 }
